@@ -596,6 +596,12 @@ func StructFieldsAsOptionsAction(explicitFields ...string) RewriteAction {
 			return []ast.Option{option}
 		}
 
+		// the fields are assigned on what the argument is assigned to: it has to be a struct
+		// (after disjunction_as_options it can be a union, `Foo | Bar`)
+		if len(assignmentPathPrefix) != 0 && !schemas.ResolveToType(assignmentPathPrefix.Last().Type).IsStruct() {
+			return []ast.Option{option}
+		}
+
 		for _, field := range structType.Fields {
 			if explicitFields != nil && !tools.ItemInList(field.Name, explicitFields) {
 				continue
